@@ -363,6 +363,8 @@ pub fn c04(tier: Tier) -> i32 {
         let mut gap_cache = std::collections::HashMap::new();
         let mut gap_cache_d1 = std::collections::HashMap::new();
         let mut reported_alarm = false;
+        let mut reported_classes: std::collections::BTreeSet<Option<String>> = std::collections::BTreeSet::new();
+        let mut bad_paths = 0u32;
         let mut matching = 0u64;
         let mut paths = 0u64;
         let mut nonconforming = 0u64;
@@ -407,8 +409,8 @@ pub fn c04(tier: Tier) -> i32 {
             }
             let specified_here = specified_here && !explained;
             let bad = capture_laws(g, &e.ast, &cm, specified_here, path, &mut gap_cache);
-            if !bad.is_empty() && !reported_alarm {
-                reported_alarm = true;
+            if !bad.is_empty() && bad_paths < 64 {
+                bad_paths += 1;
                 // recorded finding: a rooted-first tree wildcard captures part of a component
                 // (deviation D1): attributed only if the laws hold under exactly that deviation
                 let under_d1 = capture_laws(g, &e.ast, &cm_d1, specified_here, path, &mut gap_cache_d1);
@@ -420,9 +422,14 @@ pub fn c04(tier: Tier) -> i32 {
                 else {
                     None
                 };
+                // one alarm per (expression, class): a path that no recorded finding explains is
+                // reported even if a shorter one is explained
+                if !reported_classes.insert(class.clone()) {
+                    return;
+                }
                 rep.alarm(Alarm {
-                    class,
-                    key: e.text.clone(),
+                    class: class.clone(),
+                    key: format!("{} {:?}", e.text, class),
                     msg: format!("`{}` on {:?}: {}", e.text, path, bad.join("; ")),
                     case: json!({"kind": "captures", "expression": e.text, "path": path}),
                 });
